@@ -419,6 +419,35 @@ def r16_4(chk):
     chk.floor("R16.4", 16)
 
 
+def r16_5(chk):
+    """An impulse changes the velocity exactly once: the `+=` lands on a state built in this call (never on the propagator's
+    stored orbit), and what propagate() returns shares nothing with the stored orbit (so a second call starts from the same
+    initial state)."""
+    from ..ownership import Fresh, stores_through
+    repo = chk.repo
+    for q in ("ClohessyWiltshire.propagate", "ClohessyWiltshire._propagate"):
+        f = repo.func(CW, q)
+        fr = Fresh(f, repo)
+        for text, root, node in stores_through(f, fr.flow):
+            if isinstance(root, ast.Name) and root.id == "self":
+                continue
+            vals = fr.classify(root)
+            aliased = [v for v in vals if v != "fresh" and v[0] == "alias" and v[1] != "self"]
+            chk.inst("R16.5", f"{f.ref}::{text}", not aliased, "store on a state built in this call" if not aliased else
+                     f"`{text}` writes through {aliased}: the maneuver's delta-v is added to the propagator's stored initial orbit, "
+                     f"so it is applied again at every later call", loc(f, node))
+    f = repo.func(CW, "ClohessyWiltshire.propagate")
+    fr = Fresh(f, repo)
+    bad = set()
+    for r in [n for n in ast.walk(f.node) if isinstance(n, ast.Return) and n.value is not None]:
+        bad |= {v for v in fr.classify(r.value) if v != "fresh"}
+    chk.inst("R16.5", f"{f.ref}::fresh-result", not bad, "every returned state is built in the call" if not bad else f"result {sorted(bad)}", loc(f, f.node))
+    s_ = repo.func(CW, "ClohessyWiltshire.orbit", setter=True)
+    ok = "self._orbit = orb.copy(form='cartesian')".replace("orb", s_.params()[1]) in unparse(s_.node)
+    chk.inst("R16.5", f"{s_.ref}::snapshot", ok, "the propagator keeps its own cartesian copy of the initial state" if ok else "changed", loc(s_, s_.node))
+    chk.floor("R16.5", 4)
+
+
 def run(chk):
     chk.rule("R16.1", "closed-form CW matrices satisfy Hill's ODE and initial values entry by entry (term algebra)")
     chk.rule("R16.2", "QSW<->TNW is the fixed signed permutation; TNW arm is a similarity transform")
@@ -428,4 +457,6 @@ def run(chk):
     chk.guard(r16_3, chk)
     chk.rule("R16.4", "CWHelper maneuvers realise their announced distances under the matrices of cw.py (term algebra)")
     chk.guard(r16_4, chk)
+    chk.rule("R16.5", "impulses are added to states built in the call; results share nothing with the stored initial orbit")
+    chk.guard(r16_5, chk)
     chk.assume("Hill's equations: x''=3n²x+2ny'+ax, y''=-2nx'+ay, z''=-n²z+az with x radial, y along-track, z cross-track")
